@@ -14,6 +14,7 @@ from mc import core, sim, wire as W
 
 ID = "C02"
 LEVEL = "fault_enumeration"
+ISOLATE_SHARDS = True        # every shard runs in a forked child of a pristine worker (mc/core.py)
 RULE = ("streams of 1..3 frames from a message set x chunkings {all 2-way, all 3-way (short), boundary-neighbourhood <=4 cuts, "
         "byte-wise, coalesced} x injected None answers, and every truncation offset + EOF; checked after EVERY chunk: replies "
         "sent so far == replies to exactly the frames whose last byte was delivered, store == model after exactly those. "
@@ -423,3 +424,9 @@ def replay(case):
     if op == "server-trunc":
         return [m for k, m in run_chunks(frames, [stream[:t]] if t else [], base, probes=True)]
     return [m for k, m in run_chunks(frames, [stream[i:i + 1] for i in range(t)], base)]
+
+
+def preload():
+    """import the code under test once in the (pristine) worker; shard children are forked from it"""
+    from mc import sim as _sim
+    _sim.mods()
